@@ -197,10 +197,10 @@ def run(argv):
                              ([ice("CO"), ice("OH")], [ice("CO2"), ice("H")]), ([ice("H2"), ice("OH")], [ice("H2O"), ice("H")]),
                              ([ice("H2"), ice("H")], [ice("H2"), ice("H")]), ([ice("OH"), ice("H2")], [ice("H2O"), ice("H")])]
                 for re_names, pr_names in cases:
-                    for rep in range(reps):
-                        alpha = rng.choice([1.0, 0.5, 2.5e3, -5.0, 0.0, 1.0e-3]) if rep else 1.0
-                        if rep == 1 and ty in (300, 204):
-                            alpha = -5.0
+                    for rep in range(reps + 1 if ty in (300, 204) else reps):
+                        alpha = rng.choice([1.0, 0.5, 2.5e3, -5.0, 0.0, 1.0e-3, 800.0]) if rep else 1.0
+                        if ty in (300, 204) and rep in (1, 2):
+                            alpha = [2.5e3, -5.0][rep - 1]    # a real activation barrier (tunnelling decides), then a negative one
                         case = {"model": mname, "class": cls, "type": tname, "reactants": re_names, "alpha": alpha}
                         try:
                             with silenced():
